@@ -274,6 +274,11 @@ def numpy_probes(np):
         "copy": lambda: (np.copy(a), [a]), "matmul": lambda: (np.matmul(m, m.T), [m]), "dot": lambda: (np.dot(m, m.T), [m]),
         "float32": lambda: (np.asarray(np.float32(1)), []), "float64": lambda: (np.asarray(np.float64(1)), []),
         "int32": lambda: (np.asarray(np.int32(1)), []), "int16": lambda: (np.asarray(np.int16(1)), []), "int64": lambda: (np.asarray(np.int64(1)), []),
+        "argsort": lambda: (np.argsort(v), [v]), "cumsum": lambda: (np.cumsum(v), [v]), "power": lambda: (np.power(v, 1), [v]),
+        "sign": lambda: (np.sign(v), [v]), "clip": lambda: (np.clip(v, 0, 9), [v]), "ceil": lambda: (np.ceil(v), [v]), "round": lambda: (np.round(v), [v]),
+        "log1p": lambda: (np.log1p(v), [v]), "isnan": lambda: (np.isnan(v), [v]), "isinf": lambda: (np.isinf(v), [v]),
+        "any": lambda: (np.asarray(np.any(v)), [v]), "all": lambda: (np.asarray(np.all(v)), [v]),
+        "empty_like": lambda: (np.empty_like(v), [v]), "full_like": lambda: (np.full_like(v, 1), [v]),
         "array2string": lambda: (np.zeros(1), [a]), "issubdtype": lambda: (np.zeros(1), []),
         # may-view functions (no constraint; we record whether they do share)
         "reshape": lambda: (np.reshape(a, (6, 4)), [a]), "transpose": lambda: (np.transpose(a), [a]), "moveaxis": lambda: (np.moveaxis(a, 0, 2), [a]),
